@@ -11,7 +11,10 @@
 (***************************************************************************)
 EXTENDS Containers, Json
 
-ASSUME Keys = 1..Cardinality(Keys)
+CONSTANT VKeys     \* keys that take every value of Vals; the other keys only take value 1
+                   \* (values do not influence shapes: this keeps the graph small)
+
+ASSUME Keys = 1..Cardinality(Keys) /\ VKeys \subseteq Keys /\ 1 \in Vals
 NK == Cardinality(Keys)
 
 NonNone(s) == SelectSeq(s, LAMBDA c : c # "none")
@@ -29,9 +32,11 @@ Emit == PrintT(ToJson(<<"@@", TreeObs(t)>>))
 
 Init == TreeInit /\ SliceInit
 
-Set(k, v) == TSet(k, v) /\ UNCHANGED sliceVars
+Allowed(k, v) == v = 1 \/ k \in VKeys
+
+Set(k, v) == Allowed(k, v) /\ TSet(k, v) /\ UNCHANGED sliceVars
 Delete(k) == TDelete(k) /\ UNCHANGED sliceVars
-Update(k, v) == TUpdate(k, v) /\ UNCHANGED sliceVars        \* *GetPtr(k) = v when present
+Update(k, v) == Allowed(k, v) /\ TUpdate(k, v) /\ UNCHANGED sliceVars        \* *GetPtr(k) = v when present
 
 Next == \/ \E k \in Keys, v \in Vals : Set(k, v)
         \/ \E k \in Keys : Delete(k)
